@@ -13,7 +13,10 @@ class C03(Prop):
             "per test (so ordinals 10+ occur), interleaved tests, repeated executions (-count), failing calls in the middle "
             "(invalid JSON, matcher errors, mismatches), over empty and pre-populated files, create and update modes; the "
             "oracle reads back, after every call, which header was created/rewritten and checks it is [name - k] for the k-th "
-            "call of that execution, that all OTHER entries kept their bodies and relative order; non-trivial = >= 2 tests or >= 10 calls")
+            "call of that execution, that all OTHER entries kept their bodies and relative order; plus a REPLAY-VIEW stream: values with carriage "
+            "returns at line ends, every slot read back through the library's own reader (readslots) before and after one slot is created or "
+            "rewritten under update mode - the other slots must replay the same values; non-trivial = >= 2 tests or >= 10 calls")
+    fields = dict(Prop.fields, slots="*")
     outside_model = "real t.Parallel scheduling (see C06); value formatting is input"
     trusted = []
 
@@ -63,9 +66,52 @@ class C03(Prop):
             for o in body:
                 ops += [o, {"op": "dumpfs"}] if o["op"] == "match" else [o]
             cases.append({"ci": False, "updvar": upd, "colour": False, "ops": [{"op": "dumpfs"}] + ops, "meta": {"collide": collide}})
+        # the REPLAY VIEW: "creating or rewriting one slot never changes the value that any other slot replays as" judged through
+        # the library's own reader (readslots), not through the bytes - so values with a carriage return at the end of a line (where
+        # bytes and replayed value part ways: the documented limitation) can take part
+        for i in range(max(20, n // 8)):
+            r = rng.fork()
+            tests = r.shuffle([b"TestA", b"TestAB", b"TestA/sub", b"TestB", b"TestC"])[: r.range(2, 3)]
+            def val():
+                ls = [r.choice([b"plain", b"first line", b"", b"x,y,z", b"tab\there", b"  indented"]) for _ in range(r.range(1, 4))]
+                sep = b"\r\n" if r.chance(1, 2) else b"\n"
+                return sep.join(ls) + r.choice([b"", b"\r", b"\r\n", b"\n"])
+            calls = {t: [val() for _ in range(r.range(1, 3))] for t in tests}
+            rec = []
+            for t in tests:
+                rec += [G.op_match_snap(0, t, [v]) for v in calls[t]] + [G.op_end(t)]
+            ids = [hx(b"[" + t + b" - %d]" % k) for t in tests for k in range(1, len(calls[t]) + 2)] + [hx(b"[TestNew - 1]")]
+            rs = {"op": "readslots", "path": hx(b"def/zz_verif_trace_test.snap"), "values": ids}
+            if r.chance(1, 3):
+                # a NEW slot is created
+                chg, want = [dict(G.op_match_snap(0, b"TestNew", [val()]), role="change")], b"[TestNew - 1]"
+            else:
+                t = r.choice(tests)
+                k = r.below(len(calls[t]))
+                chg = [G.op_match_snap(0, t, [v]) for v in calls[t][:k]] + [dict(G.op_match_snap(0, t, [val() + b"changed"]), role="change")]
+                want = b"[" + t + b" - %d]" % (k + 1)
+            ops = rec + [{"op": "newprocess"}, G.op_setenv(False, "true"), rs] + chg + [dict(rs)]
+            cases.append({"ci": False, "updvar": "unset", "colour": False, "ops": ops, "meta": {"slots": True, "want": hx(want)}})
         return cases
 
+    def slots_oracle(self, case, ops, results):
+        sl = [r for r in results if r[0] == "slots"]
+        if len(sl) != 2:
+            return self.skip("guard")
+        before, after = sl[0][2], sl[1][2]
+        want = case["meta"]["want"]
+        if not any(v != "~" for v in before.values()):
+            return self.skip("nothing was recorded")
+        fails = []
+        for i in before:
+            if i != want and before[i] != after.get(i):
+                fails.append({"msg": "writing slot %s changed the value slot %s replays as: %r -> %r" % (
+                    unhx(want).decode("latin-1"), unhx(i).decode("latin-1"), None if before[i] == "~" else unhx(before[i]), None if after.get(i) in ("~", None) else unhx(after[i]))})
+        return fails
+
     def oracle(self, case, ops, results):
+        if case["meta"].get("slots"):
+            return self.slots_oracle(case, ops, results)
         fails = []
         main = hx(b"/S/def/zz_verif_trace_test.snap")
         k_of = {}
